@@ -445,12 +445,16 @@ def r17_1_positions(ctx):
     # format_rec_error includes every unique leaf verbatim
     g = fn(P, 'yatiml.irecognizer:format_rec_error')
     rets = g.returns()
-    ok = bool(rets) and all(ret.value is not None and ('unique_leaves' in norm(ret.value)) for ret in rets)
+    ok = bool(rets) and all(ret.value is not None and ('find_leaves(' in g.alpha.text(ret.value) or any(
+        isinstance(x, ast.Name) and x.id.startswith('<var:') for x in ast.walk(g.alpha.rewrite(ret.value)))) for ret in rets)
     r.check(ok, 'format_rec_error renders the unique leaves', g.key('renders-leaves'), g.loc(), 'format_rec_error does not include the leaves')
     leaves = fn(P, 'yatiml.irecognizer:format_rec_error.find_leaves')
     lr = leaves.returns()
-    ok = len(lr) == 2 and any(norm(x.value) == '[message]' and leaves.has_guard(x, 'causes', False, expand=False) for x in lr) \
-        and any(isinstance(x.value, ast.ListComp) and 'find_leaves' in norm(x.value) for x in lr)
+    rp = leaves.fi.params[0]
+    ok = len(lr) == 2 and any(leaves.alpha.text(x.value) == '[%s[0]]' % rp and ('%s[1]' % rp, False) in {
+        leaves.alpha.atom(g, p) for g, p in leaves.guards(x)} for x in lr) \
+        and any(isinstance(x.value, ast.ListComp) and 'find_leaves' in norm(x.value)
+                and leaves.alpha.text(x.value.generators[0].iter) == '%s[1]' % rp for x in lr)
     r.check(ok, 'find_leaves returns [message] for a node without causes and the leaves of all causes otherwise', leaves.key('shape'), leaves.loc(),
             'find_leaves no longer collects exactly the messages of the cause-free nodes')
     r.done()
